@@ -82,6 +82,24 @@ Theorem C12_pending_is_live : forall ops w,
 Proof. exact run_pending_live. Qed.
 Print Assumptions C12_pending_is_live.
 
+(* Unanimity, explicit: a write is applied only if every registered callback called
+   ApproveOrDenyWrite with an approval for it ... *)
+Theorem C12_applied_only_unanimous : forall ops p c,
+  d_ncb (dz (fst (run init ops))) <> 0%nat ->
+  In (Applied p c) (flat_map snd (snd (run init ops))) ->
+  forall cb, (cb < d_ncb (dz (fst (run init ops))))%nat -> In (Lookup p c (N.of_nat cb) true) ops.
+Proof. exact run_applied_unanimous. Qed.
+Print Assumptions C12_applied_only_unanimous.
+
+(* ... and the same on ANY trace the monitor accepts (the implementation's included). *)
+Theorem C12_monitor_enforces_unanimity : forall tr,
+  strictly_accepted (judge minit sinit tr) = true ->
+  forall p c, In (Applied p c) (flat_map snd tr) ->
+  d_ncb (m_d (mrun minit tr)) <> 0%nat ->
+  forall cb, (cb < d_ncb (m_d (mrun minit tr)))%nat -> In (Lookup p c (N.of_nat cb) true) (map fst tr).
+Proof. intros tr H p c Hin. exact (accepted_applied_unanimous tr H p c Hin). Qed.
+Print Assumptions C12_monitor_enforces_unanimity.
+
 (* The data is the write applied last: it changes only with an Applied observation. *)
 Theorem C12_data_is_last_applied : forall ops,
   data (fst (run init ops)) = last_applied (snd (run init ops)).
